@@ -452,7 +452,9 @@ abbrev Tables.PopsOK (tb : Tables) : Prop :=
   tb.eqTimeKey ∈ tb.groupMeth ∧ tb.eqCostKey ∈ tb.groupMeth ∧
   tb.srcSpatial ∈ tb.globalMeth ∧ tb.srcTemporal ∈ tb.globalMeth ∧
   tb.srcSpatial ∈ tb.sourceMeth ∧ tb.srcTemporal ∈ tb.sourceMeth ∧
-  tb.srcSpatial ∉ tb.scaleMeth ∧ tb.srcTemporal ∉ tb.scaleMeth
+  tb.srcSpatial ∉ tb.scaleMeth ∧ tb.srcTemporal ∉ tb.scaleMeth ∧
+  tb.srcErs ≠ tb.srcEpr ∧ tb.srcDur ≠ tb.srcEpr ∧ tb.srcMulti ≠ tb.srcEpr ∧
+  tb.srcRd ≠ tb.srcEpr ∧ tb.srcRc ≠ tb.srcEpr
 
 /-- the un-prefixing rule maps each prefixed key to the key the source reads, and to nothing else -/
 abbrev Tables.UnprefixOK (tb : Tables) : Prop :=
@@ -466,6 +468,57 @@ abbrev Tables.UnprefixOK (tb : Tables) : Prop :=
         removeAll (tb.prefixOf rep) k' ≠ tb.prefixOf rep ++ sk)
 
 abbrev Tables.WF (tb : Tables) : Prop := tb.SameKeys ∧ tb.ScaleOK ∧ tb.PopsOK ∧ tb.UnprefixOK
+
+/-- named components of `PopsOK` -/
+structure Tables.Pops (tb : Tables) : Prop where
+  freqG : tb.freqKey ∈ tb.globalMeth
+  monthsG : tb.monthsKey ∈ tb.globalMeth
+  yearsG : tb.yearsKey ∈ tb.globalMeth
+  deployEq : tb.deployKey = tb.siteDeploy
+  deployNotG : tb.siteDeploy ∉ tb.globalMeth
+  timeG : tb.eqTimeKey ∈ tb.globalMeth
+  costG : tb.eqCostKey ∈ tb.globalMeth
+  timeGrp : tb.eqTimeKey ∈ tb.groupMeth
+  costGrp : tb.eqCostKey ∈ tb.groupMeth
+  spG : tb.srcSpatial ∈ tb.globalMeth
+  tmG : tb.srcTemporal ∈ tb.globalMeth
+  spSrc : tb.srcSpatial ∈ tb.sourceMeth
+  tmSrc : tb.srcTemporal ∈ tb.sourceMeth
+  spNotScaled : tb.srcSpatial ∉ tb.scaleMeth
+  tmNotScaled : tb.srcTemporal ∉ tb.scaleMeth
+  ersNe : tb.srcErs ≠ tb.srcEpr
+  durNe : tb.srcDur ≠ tb.srcEpr
+  multiNe : tb.srcMulti ≠ tb.srcEpr
+  rdNe : tb.srcRd ≠ tb.srcEpr
+  rcNe : tb.srcRc ≠ tb.srcEpr
+
+theorem Tables.PopsOK.named {tb : Tables} (h : tb.PopsOK) : tb.Pops := by
+  obtain ⟨a1, a2, a3, a4, a5, a6, a7, a8, a9, a10, a11, a12, a13, a14, a15, a16, a17, a18, a19, a20⟩ := h
+  exact ⟨a1, a2, a3, a4, a5, a6, a7, a8, a9, a10, a11, a12, a13, a14, a15, a16, a17, a18, a19, a20⟩
+
+/-- named components of `ScaleOK` -/
+structure Tables.Scale (tb : Tables) : Prop where
+  nodupPlain : tb.scalePlain.Nodup
+  nodupMeth : tb.scaleMeth.Nodup
+  plainSub : ∀ k ∈ tb.scalePlain, k = tb.eqRepEpr ∨ k = tb.eqNonRepEpr
+  repIn : tb.eqRepEpr ∈ tb.scalePlain
+  nonIn : tb.eqNonRepEpr ∈ tb.scalePlain
+  repG : tb.eqRepEpr ∈ tb.globalPlain
+  nonG : tb.eqNonRepEpr ∈ tb.globalPlain
+  ne : tb.eqRepEpr ≠ tb.eqNonRepEpr
+  siteRep : tb.siteRepEpr = tb.eqRepEpr
+  siteNon : tb.siteNonRepEpr = tb.eqNonRepEpr
+  repEq : tb.eqRepEpr = tb.repPrefix ++ tb.srcEpr
+  nonEq : tb.eqNonRepEpr = tb.nonRepPrefix ++ tb.srcEpr
+  methSub : ∀ p ∈ tb.scaleMeth, p = tb.eqTimeKey ∨ p = tb.eqCostKey
+  timeIn : tb.eqTimeKey ∈ tb.scaleMeth
+  costIn : tb.eqCostKey ∈ tb.scaleMeth
+  scaledIff : ∀ rep ∈ [true, false], ∀ sk ∈ tb.srcKeysFor rep,
+      (tb.prefixOf rep ++ sk ∈ tb.scalePlain ↔ sk = tb.srcEpr)
+
+theorem Tables.ScaleOK.named {tb : Tables} (h : tb.ScaleOK) : tb.Scale := by
+  obtain ⟨a1, a2, a3, a4, a5, a6, a7, a8, a9, a10, a11, a12, a13, a14, a15, a16⟩ := h
+  exact ⟨a1, a2, a3, a4, a5, a6, a7, a8, a9, a10, a11, a12, a13, a14, a15, a16⟩
 
 /-! ### the dictionaries along one chain site type → site → group → component -/
 
@@ -560,8 +613,8 @@ theorem keys_compCtx (tb : Tables) (h : tb.SameKeys) (hs : tb.ScaleOK) (methods 
   constructor
   · intro hk
     rcases keys_compDict_sub _ _ _ _ hk with h1 | h1 | h1
-    · rw [h1]; exact hs.2.2.2.2.2.1
-    · rw [h1]; exact hs.2.2.2.2.2.2.1
+    · rw [h1]; exact hs.named.repG
+    · rw [h1]; exact hs.named.nonG
     · exact (keys_groupPlain tb h methods G Gm typeRow siteRow eqRow nG k).mp h1
   · intro hk
     exact keys_compDict_mono _ _ _ _ ((keys_groupPlain tb h methods G Gm typeRow siteRow eqRow nG k).mpr hk)
@@ -569,10 +622,10 @@ theorem keys_compCtx (tb : Tables) (h : tb.SameKeys) (hs : tb.ScaleOK) (methods 
 theorem mem_scalePlain_iff (tb : Tables) (hs : tb.ScaleOK) (k : String) :
     k ∈ tb.scalePlain ↔ (k = tb.eqRepEpr ∨ k = tb.eqNonRepEpr) := by
   constructor
-  · exact hs.2.2.1 k
+  · exact hs.named.plainSub k
   · rintro (h | h)
-    · rw [h]; exact hs.2.2.2.1
-    · rw [h]; exact hs.2.2.2.2.1
+    · rw [h]; exact hs.named.repIn
+    · rw [h]; exact hs.named.nonIn
 
 theorem get_compCtx (tb : Tables) (h : tb.SameKeys) (hs : tb.ScaleOK) (methods : List String)
     (G : Dict String) (Gm : Dict MKey) (typeRow : Option Row) (siteRow eqRow : Row) (nG : Nat)
@@ -584,7 +637,7 @@ theorem get_compCtx (tb : Tables) (h : tb.SameKeys) (hs : tb.ScaleOK) (methods :
                 (totalComponents tb eqRow)
           else resolve [typeGet typeRow k, siteRow.get? k, eqRow.get? k] (G.get k) := by
   unfold compCtx
-  rw [get_compDict _ _ _ _ hs.2.2.2.2.2.2.2.1, get_groupPlain tb h methods G Gm typeRow siteRow eqRow nG k hk]
+  rw [get_compDict _ _ _ _ hs.named.ne, get_groupPlain tb h methods G Gm typeRow siteRow eqRow nG k hk]
   by_cases hsc : k ∈ tb.scalePlain
   · have := (mem_scalePlain_iff tb hs k).mp hsc
     simp only [hsc, if_true, this]
@@ -643,5 +696,58 @@ theorem get_groupMeth (tb : Tables) (h : tb.SameKeys) (methods : List String) (G
   simp only [hm, if_true, MKey.col]
   rw [get_scaleKeys, get_siteMeth tb h methods G Gm typeRow siteRow me p hme hpa]
   simp only [resolve_cons, resolve_nil, mem_methKeys, hme, true_and]
+
+/-! ### sums over groups and components -/
+
+theorem sum_map_eq_const {α : Type} (l : List α) (f : α → Rat) (y : Rat) (h : ∀ a ∈ l, f a = y) :
+    (l.map f).sum = (l.length : Rat) * y := by
+  rw [List.map_congr_left h]
+  exact sum_map_const_rat l y
+
+theorem length_flatMap_range {α β : Type} (l : List α) (n : α → Nat) (f : α → Nat → β) :
+    (l.flatMap (fun c => (List.range (n c)).map (f c))).length = (l.map n).sum := by
+  induction l with
+  | nil => rfl
+  | cons a as ih => simp [List.flatMap_cons, ih]
+
+theorem siteGroups_divisor (tb : Tables) (files : Files) (spec : EquipSpec) (d : Dict String)
+    (g : String × Row × Nat) (hg : g ∈ siteGroups tb files spec d) :
+    g.2.2 = (siteGroups tb files spec d).length := by
+  cases spec with
+  | named raw =>
+    simp only [siteGroups, List.mem_map, List.length_map] at hg ⊢
+    obtain ⟨n, _, hn⟩ := hg
+    rw [← hn]
+  | count k =>
+    by_cases hk : k = 0
+    · subst hk
+      simp only [siteGroups, if_true, List.mem_singleton, List.length_singleton] at hg ⊢
+      rw [hg]
+    · simp only [siteGroups, hk, if_false, List.mem_map, List.length_map, List.length_range] at hg ⊢
+      obtain ⟨i, _, hi⟩ := hg
+      rw [← hi]
+  | bad => simp [siteGroups] at hg
+
+theorem mul_div_cancel_nat (x : Rat) (n : Nat) (hn : n ≠ 0) : (n : Rat) * (x / (n : Rat)) = x := by
+  have : (n : Rat) ≠ 0 := by exact_mod_cast hn
+  grind
+
+/-- `c` components each carrying `(x/n)` split by `divPos c` add back up to `x/n` when `0 ≤ x` -/
+theorem comp_split (x : Rat) (n c : Nat) (hn : n ≠ 0) (hc : c ≠ 0) (hx : 0 ≤ x) :
+    (c : Rat) * numOf (((PV.num x).divNat n).divPos c) = x / (n : Rat) := by
+  have hcr : (c : Rat) ≠ 0 := by exact_mod_cast hc
+  simp only [PV.divNat, PV.divPos]
+  by_cases hpos : 0 < x / (n : Rat)
+  · simp only [hpos, if_true, numOf]
+    grind
+  · simp only [hpos, if_false, numOf]
+    have hn0 : (0 : Rat) < (n : Rat) := Rat.natCast_pos.mpr (Nat.pos_of_ne_zero hn)
+    have hle : x / (n : Rat) ≤ 0 := Rat.not_lt.mp hpos
+    have hge : 0 ≤ x / (n : Rat) := by
+      rw [Rat.div_def]
+      exact Rat.mul_nonneg hx (Rat.le_of_lt (Rat.inv_pos.mpr hn0))
+    have : x / (n : Rat) = 0 := Rat.le_antisymm hle hge
+    rw [this]
+    grind
 
 end LdarModel.Propagate
